@@ -609,9 +609,9 @@ function renderTypeAlias(name: string, description: TypeDescription): string {
     : `${jsdocDescription(description.docText)}\n${declaration}`;
 }
 
-function describeObjectMember(
+function describeMember(
   ctx: DescribeContext,
-  key: string,
+  printedKey: string,
   value: Runtype,
 ): { docText?: string; member: string } {
   const optionalMark = value instanceof OptionalFieldRuntype ? "?" : "";
@@ -619,16 +619,38 @@ function describeObjectMember(
 
   return {
     docText: description.docText,
-    member: `${key}${optionalMark}: ${description.typeExpr}`,
+    member: `${printedKey}${optionalMark}: ${description.typeExpr}`,
   };
+}
+
+function describeObjectMember(
+  ctx: DescribeContext,
+  key: string,
+  value: Runtype,
+): { docText?: string; member: string } {
+  // property names that are not identifiers ("a-b", "0", "") must be quoted to be TypeScript
+  const printedKey = /^[A-Za-z_$][A-Za-z0-9_$]*$/.test(key) ? key : JSON.stringify(key);
+  return describeMember(ctx, printedKey, value);
 }
 
 function describeIndexObjectMember(
   ctx: DescribeContext,
   key: Runtype,
   value: Runtype,
+  hasNamedMembers: boolean,
 ): { docText?: string; member: string } {
-  return describeObjectMember(ctx, `[K in ${describeTypeExpr(ctx, key)}]`, value);
+  if (hasNamedMembers) {
+    // a mapped type cannot have other members: next to named properties this is an index signature
+    // (which cannot be optional: an optional value type is printed as `T | undefined`)
+    const inner = value instanceof OptionalFieldRuntype ? value.t : value;
+    const description = inner.describe(ctx);
+    const undefinedPart = value instanceof OptionalFieldRuntype ? " | undefined" : "";
+    return {
+      docText: description.docText,
+      member: `[key: ${describeTypeExpr(ctx, key)}]: ${description.typeExpr}${undefinedPart}`,
+    };
+  }
+  return describeMember(ctx, `[K in ${describeTypeExpr(ctx, key)}]`, value);
 }
 
 function renderObjectMember(member: { docText?: string; member: string }): string {
@@ -2037,7 +2059,7 @@ export class ObjectRuntype extends BaseRuntype {
     });
 
     const indexProps = this.indexedPropertiesParser.map(({ key, value }) =>
-      describeIndexObjectMember(ctx, key, value),
+      describeIndexObjectMember(ctx, key, value, sortedKeys.length > 0),
     );
 
     const members = [...props, ...indexProps];
